@@ -69,6 +69,8 @@ Nbr(k, vrf, myasn, rid, afam, addr, iface, asn, dyn, port, hold, ka, connect, pw
    dyn |-> dyn, port |-> port, hold |-> hold, keepalive |-> ka, connect |-> connect, pw |-> pw, pwref |-> ref, src |-> src,
    multihop |-> mh, bfd |-> bfd, gr |-> gr, disablemp |-> dmp]
 Ref(n) == [name |-> n, ns |-> "metallb-system"]
+RefName(n) == [name |-> n, ns |-> ""]                 \* the namespace of a reference is optional
+RefNs == [name |-> "", ns |-> "metallb-system"]       \* a reference that only has a namespace
 NbrCat ==
   << Nbr("n1", "", "64512", "10.1.1.254", 4, "10.2.2.254", "", "64600", "", "179", "90", "30", "", "pw-n1", NoRef,
          "10.1.1.254", TRUE, "", FALSE, FALSE),
@@ -80,20 +82,26 @@ NbrCat ==
          "", FALSE, "", FALSE, FALSE),
      Nbr("n5", "", "64512", "10.1.1.254", 0, "", "eth1", "", "external", "179", "", "", "", "", NoRef,
          "", FALSE, "bfdprof", FALSE, FALSE),
-     Nbr("n6", "red", "64513", "", 4, "10.2.2.254", "", "64600", "", "179", "", "", "", "", Ref("sec-n6"),
+     Nbr("n6", "red", "64513", "", 4, "10.2.2.254", "", "64600", "", "179", "", "", "", "", RefName("sec-n6"),
          "", FALSE, "", FALSE, FALSE),
      Nbr("n7", "red", "64513", "", 6, "fc00:f853:ccd:e793::2", "", "64513", "", "179", "180", "60", "5", "pw-n7", NoRef,
          "", FALSE, "", TRUE, TRUE),
      Nbr("n8", "", "64512", "10.1.1.254", 4, "10.2.2.253", "", "64601", "", "179", "", "", "", "", NoRef,
          "", TRUE, "", FALSE, TRUE),
-     Nbr("n9", "red", "64513", "", 0, "", "eth1", "64700", "", "179", "", "", "", "", Ref("sec-n9"),
+     Nbr("n9", "red", "64513", "", 0, "", "eth1", "64700", "", "179", "", "", "", "", RefNs,
          "", FALSE, "", FALSE, FALSE),
      (* differs from n5 ONLY in the interface name *)
      Nbr("n11", "", "64512", "10.1.1.254", 0, "", "eth2", "", "external", "179", "", "", "", "", NoRef,
          "", FALSE, "bfdprof", FALSE, FALSE),
      Nbr("n10", "", "64512", "10.1.1.254", 4, "10.2.2.252", "", "64602", "", "179", "", "", "", "pw-n10", Ref("sec-n10"),
+         "", FALSE, "", FALSE, FALSE),
+     (* a plain password together with a reference that has only a name / only a namespace *)
+     Nbr("n12", "", "64512", "10.1.1.254", 4, "10.2.2.251", "", "64603", "", "179", "", "", "", "pw-n12", RefName("sec-n12"),
+         "", FALSE, "", FALSE, FALSE),
+     Nbr("n13", "", "64512", "10.1.1.254", 6, "fc00:f853:ccd:e793::4", "", "64604", "", "179", "", "", "", "pw-n13", RefNs,
          "", FALSE, "", FALSE, FALSE) >>
 NNbr == Len(NbrCat)
+NGhost == 10        \* the extra session of the history order is one of the first 10 (never one the FRR-K8s manager refuses)
 
 (* a DisableMP session is only asked for prefixes of its own family (assumption of the check) *)
 AllowedAdvs(n, A) == IF NbrCat[n].disablemp THEN {a \in A : AdvCat[a].p.fam = NbrCat[n].afam} ELSE A
@@ -114,8 +122,8 @@ Sess(n, A, pre, ghost) ==
 
 ----------------------------------------------------------------------------
 (* role B: inputs.  inp = [bucket, ns |-> sequence of catalogue indices (increasing), as |-> their advertisement sets] *)
-Sizes == IF Tier = "thorough" THEN [pair |-> 150, triple |-> 200]
-         ELSE IF Tier = "quick" THEN [pair |-> 24, triple |-> 8]
+Sizes == IF Tier = "thorough" THEN [pair |-> 120, triple |-> 120]
+         ELSE IF Tier = "quick" THEN [pair |-> 18, triple |-> 6]
          ELSE [pair |-> 1, triple |-> 1]
 
 PairsOf == {t \in (1..NNbr) \X (1..NNbr) : t[1] < t[2]}
@@ -212,7 +220,7 @@ HViewSessions(view) ==
 
 K == Len(inp.ns)
 (* the history variant: a session that does not belong to the set is created, advertises, and is closed again *)
-GhostN == CHOOSE g \in 1..(NNbr - 1) : g \notin Range(inp.ns) /\ \A o \in 1..(NNbr - 1) : o \notin Range(inp.ns) => g <= o
+GhostN == CHOOSE g \in 1..NGhost : g \notin Range(inp.ns) /\ \A o \in 1..NGhost : o \notin Range(inp.ns) => g <= o
 Sessions ==
   [i \in 1..(K + 1) |->
      IF i <= K THEN Sess(inp.ns[i], inp.as[i], IF i = 1 THEN {2, 5, 9, 10} ELSE {}, FALSE)
@@ -240,7 +248,10 @@ Orders ==
 (* implementation x secret handling                                                                        *)
 PwCases ==
   {[pw |-> c[1], secretpw |-> c[2], ref |-> c[3], impl |-> im, handling |-> h] :
-     c \in {<<"", "", NoRef>>, <<"plain-pw", "", NoRef>>, <<"", "from-secret", Ref("peer-secret")>>},
+     c \in {<<"", "", NoRef>>, <<"plain-pw", "", NoRef>>, <<"", "from-secret", Ref("peer-secret")>>,
+            <<"", "from-secret", RefName("peer-secret")>>,       \* reference without namespace
+            <<"", "", RefNs>>,                                   \* reference with a namespace only: nothing to resolve
+            <<"plain-pw", "", RefNs>>},                          \* ... next to a plain password (the loader lets it through)
      im \in {"native", "frr", "frr-k8s"}, h \in {"passthrough", "convert"}}
 
 Emit ==
@@ -345,7 +356,7 @@ GenCRNbr(s) ==
       cs == AnySeq(UNION {r.comms : r \in R})
       lcs == AnySeq(UNION {r.lcomms : r \in R})
   IN [address |-> s.addr, iface |-> s.iface, asn |-> IF s.dyn # "" THEN "0" ELSE s.asn, dyn |-> s.dyn, srcaddr |-> s.src,
-      port |-> s.port, password |-> IF s.pwref.name # "" THEN "" ELSE s.pw, secret |-> s.pwref, hold |-> s.hold,
+      port |-> s.port, password |-> IF HasRef(s.pwref) THEN "" ELSE s.pw, secret |-> s.pwref, hold |-> s.hold,
       keepalive |-> s.keepalive, connect |-> s.connect, multihop |-> s.multihop, bfd |-> s.bfd, gr |-> s.gr,
       disablemp |-> s.disablemp, allowedMode |-> "", allowed |-> WithCodes(SortP(ReqPrefixes(s))),
       withLocalPref |-> [j \in DOMAIN lps |-> [lp |-> lps[j], prefixes |-> SortP({r.prefix : r \in {r \in R : r.lp = lps[j]}})]],
